@@ -43,7 +43,10 @@
 EXTENDS JsonChars, TLC
 
 CONSTANTS Universe,    \* "quick" | "thorough"
-          MaxDepth     \* bound on the length of a behaviour (CONSTRAINT Bounded)
+          MaxDepth,    \* bound on the length of a behaviour (CONSTRAINT Bounded)
+          StaticCfgs   \* names of static-context configurations (parser base URI, XSD version, ...): every
+                       \* action is quantified over them and its result does NOT depend on the choice --
+                       \* all the edges s --Act(c, ...)--> s' of one step lead to the same s'
 
 VARIABLES rep,    \* "xdm" | "text" | "xml" | "err"
           val,    \* the representation (rep = "err": [code |-> ...])
@@ -283,14 +286,14 @@ Sc1 == <<CC1>>             \* not an XML character: JSON texts only
 Smix == <<CA, CQ, CB, CS>>
 Sub == <<CB, CU>>          \* backslash u
 
-XStrings == {S0, Sa, Sq, Sb, Sbn, Sbnl, Ss, Snl, Sdel, Sast, Smix, Sub}
+XStrings == {S0, Sa, Sq, Sb, Sbn, Sbnl, Ss, Snl, Sdel, Sast, Smix, Sub, VHiL, VBmp, VTrunc}
 XNumbers == {XNum("int", 0, 0), XNum("int", -1, 0), XNum("int", 100, 0), XNum("dec", 5, -1), XNum("dec", 314159, -5),
              XNum("dbl", 1, 2), XNum("dbl", 1, -7), XNum("dbl", 314159, -5), XNum("dbl", 5, -1),
              XNum("dbl", 1, 20), XNum("dbl", 1, -10), XNum("dec", 25, -1), XNum("dec", 1, -3)}
 XAtoms0 == {XStr(s) : s \in XStrings} \cup XNumbers \cup {XBool(TRUE), XBool(FALSE), XEmpty}
 XAtoms1 == {XStr(Sa), XStr(Sbn), XBool(TRUE), XEmpty, XNum("int", -1, 0), XNum("dec", 314159, -5), XNum("dbl", 1, 2)}
            \cup (IF Universe = "thorough" THEN {XStr(Sast), XStr(Sq), XBool(FALSE), XNum("dbl", 1, -7), XNum("dec", 5, -1)} ELSE {})
-XKeys == {S0, Sa, Sq, Sbn, Sbnl, Ss} \cup (IF Universe = "thorough" THEN {Sb, Snl, Sdel, Sast, Smix} ELSE {})
+XKeys == {S0, Sa, Sq, Sbn, Sbnl, Ss, VHi} \cup (IF Universe = "thorough" THEN {Sb, Snl, Sdel, Sast, Smix} ELSE {})
 XKeyPairs == {<<Sa, Sq>>, <<Sbn, Sbnl>>, <<S0, Ss>>, <<Sa, Sbn>>}
              \cup (IF Universe = "thorough" THEN {<<Sb, Sbn>>, <<Snl, Sbnl>>, <<Sdel, Sast>>, <<Sa, Smix>>, <<Sq, Ss>>} ELSE {})
 Map1(k, x) == XMap([j \in {k} |-> x])
@@ -312,7 +315,7 @@ XD2 == {XArr(<<x>>) : x \in XComposite2}
 XdmUniverse == XAtoms0 \cup XD1 \cup XD2
 
 (* JSON texts that Serialize does not produce: other escape forms, number spellings, duplicate keys *)
-TStrings == XStrings \cup {Sc1, <<CA, CC1>>}
+TStrings == XStrings \cup {Sc1, <<CA, CC1>>} \cup BackslashUValues
 TStrAtoms == {SStr(Esc(s, pol)) : s \in TStrings, pol \in Policies}
 TNumAtoms == {SNum(1, 2, sp) : sp \in {"exp", "Exp", "plain", "frac", "expplus", "dexp"}}
              \cup {SNum(1, -7, sp) : sp \in {"Exp", "plain", "dexp"}} \cup {SNum(0, 0, sp) : sp \in {"plain", "negzero", "frac", "exp"}}
@@ -322,7 +325,7 @@ TNumAtoms == {SNum(1, 2, sp) : sp \in {"exp", "Exp", "plain", "frac", "expplus",
 TAtoms0 == TStrAtoms \cup TNumAtoms \cup {SNull, SBool(TRUE), SBool(FALSE)}
 TAtoms1 == {SStr(Esc(Sa, "U")), SStr(Esc(Snl, "py")), SNum(1, 2, "Exp"), SNull, SStr(Esc(Sc1, "U")), SStr(Esc(Sast, "l"))}
 TAtoms2 == {SNum(1, 0, "plain"), SStr(Sa), SNull}
-TKeys == {Esc(s, pol) : s \in {Sa, Sq, Sbn, Sbnl, Ss, Sc1, S0} \cup (IF Universe = "thorough" THEN {Sb, Snl, Sdel, Sast} ELSE {}),
+TKeys == {Esc(s, pol) : s \in {Sa, Sq, Sbn, Sbnl, Ss, Sc1, S0, VHiL, VLo, VBmp, VRev, VNoHex} \cup (IF Universe = "thorough" THEN {Sb, Snl, Sdel, Sast} ELSE {}),
                         pol \in {"min", "canon", "U"}}
 TKeyPairs == {<<Esc(Sa, "min"), Esc(Sa, "U")>>, <<Esc(Sa, "U"), Esc(Sa, "min")>>, <<Esc(Sa, "min"), Esc(Sa, "min")>>,
               <<Esc(Sbn, "min"), Esc(Sbnl, "min")>>, <<Esc(Ss, "min"), Esc(Ss, "canon")>>, <<Esc(Sa, "min"), Esc(Sq, "min")>>,
@@ -356,28 +359,28 @@ Init == /\ loss = {}
 Goto(r, v, l) == /\ rep' = r /\ val' = v /\ abs' = AbsOf(r, v) /\ loss' = l /\ UNCHANGED <<orig, start>>
 Error(code) == Goto("err", [code |-> code], loss)
 
-Serialize == /\ rep = "xdm"
-             /\ Goto("text", Lin(SerX(val)), loss)
-ParseJson(dup) ==
-  /\ rep = "text"
+Serialize(c) == /\ rep = "xdm" /\ c \in StaticCfgs
+                /\ Goto("text", Lin(SerX(val)), loss)
+ParseJson(c, dup) ==
+  /\ rep = "text" /\ c \in StaticCfgs
   /\ LET st == Parse(val) IN
      IF dup = "reject" /\ HasDup(st) THEN Error("FOJS0003")
      ELSE Goto("xdm", FromST(st, dup),
                loss \cup (IF dup = "use-last" /\ HasDup(st) THEN {"last"} ELSE {})
                     \cup (IF ~AllXmlAV(AbsT(st, dup)) THEN {"repl"} ELSE {}))
-JsonToXml(esc, dup) ==
-  /\ rep = "text"
+JsonToXml(c, esc, dup) ==
+  /\ rep = "text" /\ c \in StaticCfgs
   /\ LET st == Parse(val) IN
      IF dup = "reject" /\ HasDup(st) THEN Error("FOJS0003")
      ELSE Goto("xml", ToXE(st, esc, dup, FALSE, FALSE, <<>>),
                loss \cup (IF ~esc /\ ~AllXmlAV(AbsT(st, "use-first")) THEN {"repl"} ELSE {}))
-XmlToJson == /\ rep = "xml"
-             /\ IF XmlHasDup(val) THEN Error("FOJS0006") ELSE Goto("text", Lin(FromXE(val)), loss)
+XmlToJson(c) == /\ rep = "xml" /\ c \in StaticCfgs
+                /\ IF XmlHasDup(val) THEN Error("FOJS0006") ELSE Goto("text", Lin(FromXE(val)), loss)
 
-Next == \/ Serialize
-        \/ \E dup \in DupOptsParse : ParseJson(dup)
-        \/ \E esc \in BOOLEAN, dup \in DupOptsXml : JsonToXml(esc, dup)
-        \/ XmlToJson
+Next == \/ \E c \in StaticCfgs : Serialize(c)
+        \/ \E c \in StaticCfgs, dup \in DupOptsParse : ParseJson(c, dup)
+        \/ \E c \in StaticCfgs, esc \in BOOLEAN, dup \in DupOptsXml : JsonToXml(c, esc, dup)
+        \/ \E c \in StaticCfgs : XmlToJson(c)
 Spec == Init /\ [][Next]_vars
 Bounded == TLCGet("level") <= MaxDepth
 
